@@ -11,6 +11,8 @@
 // in  (mode "compile"): files {path: text}, request [paths], trees bool
 // out: old {ok, errs}, new {ok, errs}, cmp [{path, equal, diffs [field paths]}],
 //      trees [{path, old, new}] (only if asked; see tree())
+// in  (mode "fdset"): files, request, out path: the experimental compiler only; its descriptors are
+//      written to the path as a FileDescriptorSet -> ok, errs
 // in  (mode "perturb"): files, request, file index, kind: the stable descriptor against a
 //      perturbed copy of itself
 // out: applicable, equal, diffs, old (tree), new (tree)
@@ -20,6 +22,7 @@ import (
 	"context"
 	"fmt"
 	"math"
+	"os"
 	"sort"
 	"strings"
 
@@ -216,12 +219,12 @@ func diffMsg(a, b protoreflect.Message, path string, top bool, diffs *[]string) 
 		switch {
 		case j >= len(fb) || (i < len(fa) && fa[i].num < fb[j].num):
 			if !(top && fa[i].num == sourceCodeInfoField) {
-				*diffs = append(*diffs, path+string(fa[i].fd.Name())+":only-in-stable")
+				*diffs = append(*diffs, path+fname(fa[i].fd)+":only-in-stable")
 			}
 			i++
 		case i >= len(fa) || fb[j].num < fa[i].num:
 			if !(top && fb[j].num == sourceCodeInfoField) {
-				*diffs = append(*diffs, path+string(fb[j].fd.Name())+":only-in-experimental")
+				*diffs = append(*diffs, path+fname(fb[j].fd)+":only-in-experimental")
 			}
 			j++
 		default:
@@ -463,6 +466,22 @@ func dualCase(in map[string]any) map[string]any {
 	switch vhlib.Str(in, "mode") {
 	case "perturb":
 		return perturbCase(in, files, request)
+	case "fdset":
+		// the experimental compiler's descriptors of the requested files as a serialized
+		// FileDescriptorSet at the given path (read back by the miniproto family's projection)
+		n := compileNew(files, request)
+		out := map[string]any{"ok": n.ok, "errs": strs(n.errs)}
+		if n.ok {
+			b, err := proto.Marshal(&descriptorpb.FileDescriptorSet{File: n.fds})
+			if err == nil {
+				err = os.WriteFile(vhlib.Str(in, "out"), b, 0o644)
+			}
+			if err != nil {
+				out["ok"] = false
+				out["write_error"] = err.Error()
+			}
+		}
+		return out
 	}
 	o := compileOld(files, request)
 	n := compileNew(files, request)
